@@ -125,7 +125,7 @@ def nlri_flowspec(rng, v6, vpn):
     if rng.random() < 0.05: types.append(rng.choice([0, 14, 200]))
     for t in types:
         if t in (1, 2):
-            m, b = prefix(rng, v6, clean=True)
+            m, b = prefix(rng, v6, clean=rng.random() < 0.5)
             comps += [t, m] + ([rng.choice([0, 0, 0, 8, min(m, 16)])] if v6 else []) + b
         else:
             comps += [t] + fs_ops(rng)
@@ -138,12 +138,12 @@ def nlri_mup(rng, v6):
     """draft-mpmz-bess-mup-safi: arch type(1)=1, route type(2), length(1), value"""
     rt = rng.choice([1, 2, 3, 4]) if rng.random() < 0.95 else rng.choice([0, 5])
     if rt == 1:
-        m, b = prefix(rng, v6, clean=True)
+        m, b = prefix(rng, v6, clean=rng.random() < 0.5)
         d = rd(rng) + [m] + b
     elif rt == 2:
         d = rd(rng) + (ip6r(rng) if v6 else ip4r(rng))
     elif rt == 3:
-        m, b = prefix(rng, v6, clean=True)
+        m, b = prefix(rng, v6, clean=rng.random() < 0.5)
         ep = ip6r(rng) if v6 else ip4r(rng)
         d = rd(rng) + [m] + b + be32(u32r(rng)) + [rng.choice([0, 9, 255])] + [len(ep) * 8] + ep
         if rng.random() < 0.4:
@@ -151,7 +151,7 @@ def nlri_mup(rng, v6):
             d += [len(src) * 8] + src
     elif rt == 4:
         ep = ip6r(rng) if v6 else ip4r(rng)
-        tl = rng.choice([0, 8, 32])
+        tl = rng.choice([0, 8, 32]) if rng.random() < 0.4 else rng.randrange(33)     # also lengths that are not whole octets, spare bits as they come
         teid = be32(u32r(rng))[: (tl + 7) // 8]
         d = rd(rng) + [len(ep) * 8 + tl] + ep + teid
     else:
